@@ -153,4 +153,4 @@ def replay(j):
             bad = True
             break
     print("recorded:", j.get("what"))
-    return bad
+    return not bad          # True = the contract holds now
